@@ -19,7 +19,7 @@ PROPS = {
     "C14": dict(
         modules=["Drpc.Props.C14", "Drpc.Tie.C14"],
         suites=["http"],
-        rule="http suite: (unescape) ALL header strings over {%,=,0,9,a,f,A,F,g,space,0xff} to length 5 and over a "
+        rule="(family `errlimit`: failed RPCs whose error text brings the grpc-web trailer block / the Twirp body to the 4 MiB limit -1/+0/+1, evaluated by the direct oracles; a frames-only body of a failed RPC now fails grpc-status-nonzero-iff-failed) http suite: (unescape) ALL header strings over {%,=,0,9,a,f,A,F,g,space,0xff} to length 5 and over a "
              "7-byte alphabet to length 6 (7 in thorough), random strings to 200 bytes incl. 'mostly %' and valid-escape-heavy ones; (context) all "
              "single entries to length 3 (4) and random 1-4 entry lists built with three escapers, duplicates, key-only and "
              "malformed entries; (getcode) ALL error chains of <= 3 nodes over {Unwrap, Cause, Code()uint64 12/0, Code()string, "
@@ -116,7 +116,7 @@ PROPS = {
     "C09": dict(
         modules=["Drpc.Props.C09", "Drpc.Tie.C09"],
         suites=["reader"],
-        rule="reader suite: producible / unusual / malformed / hostile frame sequences (id jumps, superseded packets, control on "
+        rule="(7th chunking `tailtogether`: one of the last complete frames and everything after it arrive in ONE read; family `cutover`: streams ending inside a frame that can never be accepted, tail lengths around max+31/max+32, transport error with and after the last data) reader suite: producible / unusual / malformed / hostile frame sequences (id jumps, superseded packets, control on "
              "a middle frame, kind change, stale and duplicated ids, 10-byte-varint ids, oversize around the maximum, truncated, "
              "garbage tail, non-canonical 31-byte headers) for maxima {1,28,29,31,100,1000,4068,4096,5000}, each under six "
              "chunkings (all-at-once, 1 byte, 7 bytes, frame-aligned, frame-straddling, random) with the final error attached "
